@@ -76,32 +76,63 @@ def new_graph(cls, removal=True):
     return C(edge_removal=removal) if not removal else C()
 
 
+def _variant(op, n):
+    """Deterministic call-form selector: a pure function of the op, so replay files stay exact."""
+    return sum(ord(c) for c in repr(op)) % n
+
+
 def call_real(G, nodes, op):
-    """Perform op on the real graph; returns None or the exception instance."""
+    """Perform op on the real graph; returns None or the exception instance.  The documented call
+    forms are rotated (positional / keyword t and e; ebunch as list of tuples, tuple of lists,
+    generator, 3-tuples with a data dict; node sequences as list, tuple or iterator)."""
     import dynetx as dn
     k = op[0]
+    var = _variant(op, 12)
     try:
         if k == 'add':
             u, v, t, e = nodes[op[1]], nodes[op[2]], op[3], op[4]
             if e is None:
-                G.add_interaction(u, v, t)
+                if var % 3 == 0:
+                    G.add_interaction(u, v, t)
+                elif var % 3 == 1:
+                    G.add_interaction(u, v, t=t)
+                else:
+                    G.add_interaction(u, v, t, None)
             else:
-                G.add_interaction(u, v, t=t, e=e)
+                if var % 3 == 0:
+                    G.add_interaction(u, v, t=t, e=e)
+                elif var % 3 == 1:
+                    G.add_interaction(u, v, t, e)
+                else:
+                    G.add_interaction(u=u, v=v, e=e, t=t)
         elif k == 'add_from':
             pairs = [(nodes[a], nodes[b]) for a, b in op[1]]
-            if op[3] is None:
-                G.add_interactions_from(pairs, t=op[2])
+            form = var % 4
+            if form == 1:
+                ebunch = tuple([a, b] for a, b in pairs)
+            elif form == 2:
+                ebunch = ((a, b) for a, b in pairs)
+            elif form == 3:
+                ebunch = [(a, b, {'w': 1}) for a, b in pairs]
             else:
-                G.add_interactions_from(pairs, op[2], op[3])
+                ebunch = pairs
+            if op[3] is None:
+                G.add_interactions_from(ebunch, t=op[2])
+            elif var % 2:
+                G.add_interactions_from(ebunch, op[2], op[3])
+            else:
+                G.add_interactions_from(ebunch, t=op[2], e=op[3])
         elif k in ('path', 'star', 'cycle'):
             seq = [nodes[i] for i in op[1]]
             t, form, e = op[2], op[3], op[4]
+            shape = var % 3
+            arg = seq if shape == 0 else (tuple(seq) if shape == 1 else (iter(seq) if k != 'cycle' or form == 'm' else list(seq)))
             if form == 'm':
-                getattr(G, 'add_' + k)(seq, t)
+                getattr(G, 'add_' + k)(arg, t) if var % 2 else getattr(G, 'add_' + k)(arg, t=t)
             elif e is None:
-                getattr(dn, 'add_' + k)(G, seq, t)
+                getattr(dn, 'add_' + k)(G, arg, t)
             else:
-                getattr(dn, 'add_' + k)(G, seq, t, e=e)
+                getattr(dn, 'add_' + k)(G, arg, t, e=e)
         elif k == 'node':
             G.add_node(nodes[op[1]], **copy.deepcopy(op[2]))
         elif k == 'nodes_from':
